@@ -13,9 +13,11 @@ import (
 	"time"
 
 	"github.com/Trendyol/go-dcp/config"
+	"github.com/Trendyol/go-dcp/couchbase"
 	"github.com/Trendyol/go-dcp/helpers"
 	"github.com/Trendyol/go-dcp/membership"
 	"github.com/Trendyol/go-dcp/stream"
+	"github.com/Trendyol/go-dcp/tracing"
 	"github.com/asaskevich/EventBus"
 	"pgregory.net/rapid"
 )
@@ -357,6 +359,172 @@ func init() {
 			return "bad scenario: " + err.Error()
 		}
 		return c09ExecDiscovery(c)
+	})
+}
+
+// ---------- the member's streams follow the membership: what it streams once the group is stable ----------
+// The partition is what the members STREAM: after any sequence of membership events - also events arriving while an
+// earlier one is still being applied (stream closing, reopen pending, reopen running) - the member ends up streaming
+// exactly the set a fresh discovery object computes for the last (N, T, member number).
+
+type c09FollowStep struct {
+	T    int    `json:"t"`
+	M    int    `json:"m"`
+	When string `json:"when"` // idle | closing | pending | reopen_before | reopen_after (relative to the previous event's rebalance)
+}
+
+type c09Follow struct {
+	N       int             `json:"n"`
+	Dynamic bool            `json:"dynamic"` // dynamic membership: the reopen is not delayed
+	Steps   []c09FollowStep `json:"steps"`
+}
+
+func c09ExecFollow(sc c09Follow) (string, map[string]bool) {
+	labels := map[string]bool{}
+	cfgS := laConfig()
+	cfgS.Dcp.Group.Membership.RebalanceDelay = 8 * time.Millisecond
+	if sc.Dynamic {
+		cfgS.Dcp.Group.Membership.Type = membership.DynamicMembershipType
+	}
+	cfgD := &config.Dcp{}
+	cfgD.Dcp.Group.Membership.Type = membership.DynamicMembershipType
+	bus := EventBus.New()
+	disc := stream.NewVBucketDiscovery(nil, cfgD, sc.N, bus)
+	defer disc.Close()
+	bus.Publish(helpers.MembershipChangedBusEventName, &membership.Model{MemberNumber: sc.Steps[0].M, TotalMembers: sc.Steps[0].T})
+	cl := newFakeClient(sc.N)
+	hand := &fakeHandler{}
+	st := stream.NewStream(cl, newFakeMeta(), cfgS, &couchbase.Version{Major: 7}, &couchbase.BucketInfo{BucketType: "membase"},
+		disc, &fakeConsumer{}, map[uint32]string{}, make(chan struct{}, 1), hand, tracing.NewTracerComponent())
+	if ok, pv := within(20*time.Second, func() { st.Open() }); !ok || pv != nil {
+		return fmt.Sprintf("Open(): returned=%v panic=%v", ok, pv), labels
+	}
+	counts := func() (brs, are int) {
+		for _, n := range hand.names() {
+			switch n {
+			case "BRS":
+				brs++
+			case "ARE":
+				are++
+			}
+		}
+		return
+	}
+	var mu sync.Mutex
+	fired := make([]bool, len(sc.Steps))
+	fired[0] = true
+	var fire func(j int, where string)
+	fire = func(j int, where string) {
+		mu.Lock()
+		if j >= len(sc.Steps) || fired[j] {
+			mu.Unlock()
+			return
+		}
+		fired[j] = true
+		mu.Unlock()
+		labels["event_"+where] = true
+		if j+1 < len(sc.Steps) {
+			nxt := j + 1
+			switch sc.Steps[nxt].When {
+			case "closing":
+				hand.hook("ASStop", func() { fire(nxt, "while_closing") })
+			case "reopen_before":
+				hand.hook("BSStart", func() { fire(nxt, "at_reopen_start") })
+			case "reopen_after":
+				hand.hook("ASStart", func() { fire(nxt, "while_reopening") })
+			}
+		}
+		// what the library does with a membership event: the membership object and dcp.membershipChangedListener
+		bus.Publish(helpers.MembershipChangedBusEventName, &membership.Model{MemberNumber: sc.Steps[j].M, TotalMembers: sc.Steps[j].T})
+		st.Rebalance()
+		if j+1 < len(sc.Steps) && sc.Steps[j+1].When == "pending" {
+			fire(j+1, "while_reopen_pending")
+		}
+	}
+	waitIdle := func(limit time.Duration) bool {
+		deadline := time.Now().Add(limit)
+		stableSince := time.Now()
+		lb, la := counts()
+		for time.Now().Before(deadline) {
+			b, a := counts()
+			if b != lb || a != la || b != a || !st.IsOpen() {
+				lb, la, stableSince = b, a, time.Now()
+			} else if time.Since(stableSince) > 40*time.Millisecond {
+				return true
+			}
+			time.Sleep(time.Millisecond)
+		}
+		return false
+	}
+	for j := 1; j < len(sc.Steps); j++ {
+		mu.Lock()
+		done := fired[j]
+		mu.Unlock()
+		if done {
+			continue
+		}
+		waitIdle(5 * time.Second)
+		if ok, pv := within(20*time.Second, func() { fire(j, "idle") }); !ok || pv != nil {
+			return fmt.Sprintf("membership event %d: Rebalance() returned=%v panic=%v", j, ok, pv), labels
+		}
+	}
+	last := sc.Steps[len(sc.Steps)-1]
+	want := c09Range(c09Discovery(sc.N, last.T, last.M))
+	deadline := time.Now().Add(10 * time.Second)
+	for {
+		b, a := counts()
+		if b == a && st.IsOpen() && cl.liveRange() == want {
+			break
+		}
+		if time.Now().After(deadline) {
+			b, a := counts()
+			return fmt.Sprintf("N=%d: the membership settled at member %d of %d; the member streams vBuckets %s, a member with that number streams %s (rebalances begun %d, finished %d)",
+				sc.N, last.M, last.T, cl.liveRange(), want, b, a), labels
+		}
+		time.Sleep(time.Millisecond)
+	}
+	waitIdle(2 * time.Second)
+	if got := cl.liveRange(); got != want {
+		return fmt.Sprintf("N=%d: after settling at member %d of %d the member went on to stream %s instead of %s", sc.N, last.M, last.T, got, want), labels
+	}
+	within(20*time.Second, func() { st.Close(false) })
+	return "", labels
+}
+
+func TestC09_StreamFollowsMembership(t *testing.T) {
+	rapid.Check(t, func(rt *rapid.T) {
+		sc := c09Follow{N: rapid.SampledFrom([]int{4, 8, 16, 64, 128}).Draw(rt, "n"), Dynamic: rapid.IntRange(0, 3).Draw(rt, "dynamic") == 0}
+		for i, k := 0, rapid.IntRange(2, 5).Draw(rt, "steps"); i < k; i++ {
+			maxT := sc.N
+			if maxT > 8 {
+				maxT = 8
+			}
+			s := c09FollowStep{T: rapid.IntRange(1, maxT).Draw(rt, "t")}
+			s.M = rapid.IntRange(1, s.T).Draw(rt, "m")
+			s.When = "idle"
+			if i > 0 {
+				s.When = rapid.SampledFrom([]string{"idle", "closing", "pending", "reopen_before", "reopen_after", "reopen_after"}).Draw(rt, "when")
+			}
+			sc.Steps = append(sc.Steps, s)
+		}
+		journal("C09", "c09follow", sc)
+		d, labels := c09ExecFollow(sc)
+		journalDone()
+		if d != "" {
+			violation(rt, "C09", "c09follow", sc, "%s", d)
+		}
+		record("C09", sc, labels["event_while_reopening"] || labels["event_while_closing"], append(labelList(labels), "stream_follows_cases")...)
+	})
+}
+
+func init() {
+	registerReplay("c09follow", func(raw json.RawMessage) string {
+		var sc c09Follow
+		if err := json.Unmarshal(raw, &sc); err != nil {
+			return "bad scenario: " + err.Error()
+		}
+		d, _ := c09ExecFollow(sc)
+		return d
 	})
 }
 
